@@ -26,7 +26,7 @@ from unittest import mock
 
 from .. import tlc, tracecheck
 from ..core import Violation
-from ..tlaparse import parse_dump, parse_simulation_file
+from ..fastdump import last_simulation_state, parse_dump
 
 UNIT = 1024  # recorded pauses: 1/1024 s
 TRANSIENT_CODES = (429, 502, 503, 504)
@@ -169,12 +169,16 @@ class _NodePool:
 
 
 class _Transport:
+    _serializers = None
+
     def __init__(self):
         import elastic_transport
         from elasticsearch.serializer import DEFAULT_SERIALIZERS
 
+        if _Transport._serializers is None:
+            _Transport._serializers = elastic_transport.SerializerCollection(DEFAULT_SERIALIZERS)
         self.node_pool = _NodePool()
-        self.serializers = elastic_transport.SerializerCollection(DEFAULT_SERIALIZERS)
+        self.serializers = _Transport._serializers
 
 
 class FakeClient(_Namespace):
@@ -399,10 +403,9 @@ def behaviours_from_sim(ctx, out, num, rnd, chooser):
     out.add_tlc(res)
     cases = []
     for fn in sorted(glob.glob(os.path.join(simdir, "b_*"))):
-        states = parse_simulation_file(fn)
-        if not states or states[-1]["status"]["k"] == "running":
+        st = last_simulation_state(fn, crosscheck=len(cases) < 5)
+        if st is None or st["status"]["k"] == "running":
             continue
-        st = states[-1]
         kind = str(st["kind"])
         if kind not in chooser.by_kind:
             continue
